@@ -2,7 +2,8 @@ import FV.Model.Scalar
 /-
   Executable model of `circle_circle_intersection_area` (tools/force/fruchterman_reingold.py), as repaired
   by `fixes/C17_acos_clamp.diff` (quotients clamped into [-1, 1] before `math.acos`, result clamped into
-  `[0, area of the smaller disc]`).
+  `[0, area of the smaller disc]`) and `fixes/C17_underflow_scale.diff` (lengths taken relative to the larger
+  radius; a divisor that still rounds to zero returns the area of the smaller disc).
 
   The function is generic in a record `Fns` of the library functions it calls (`x ** 2`, `x ** (1/2)`,
   `math.acos`, `math.sin`, `math.pi`).  The partial ones return `Except`: Python's `math.acos` raises
@@ -56,13 +57,18 @@ def dist (F : Fns α) (x1 y1 x2 y2 : α) : Except PyErr α :=
 /-- `math.pi * min(r1, r2)**2` -/
 def small (F : Fns α) (r1 r2 : α) : α := F.pi * F.sq (pyMin r1 r2)
 
-/-- first quotient `(r1**2 + d**2 - r2**2) / (2 * r1 * d)` -/
-def quot (F : Fns α) (r1 r2 d : α) : Except PyErr α :=
-  pyDiv (F.sq r1 + F.sq d - F.sq r2) (two * r1 * d)
+/-- `x == 0` on floats (true for `±0.0`, false for NaN). -/
+@[inline] def isZero (x : α) : Prop := x ≤ zero ∧ zero ≤ x
 
-/-- `r1**2 * alpha + r2**2 * beta - d * r1 * math.sin(alpha)` -/
-def lensRaw (F : Fns α) (r1 r2 d al be : α) : α :=
-  F.sq r1 * al + F.sq r2 * be - d * r1 * F.sin al
+instance (x : α) : Decidable (isZero x) := by unfold isZero; infer_instance
+
+/-- quotient `(a**2 + e**2 - b**2) / (2 * a * e)` (cosine of the angle at the first centre). -/
+def quot (F : Fns α) (a b e : α) : Except PyErr α :=
+  pyDiv (F.sq a + F.sq e - F.sq b) (two * a * e)
+
+/-- `a**2 * alpha + b**2 * beta - e * a * math.sin(alpha)` -/
+def lensRaw (F : Fns α) (a b e al be : α) : α :=
+  F.sq a * al + F.sq b * be - e * a * F.sin al
 
 /-- the body of the function once `d` is known. -/
 def areaD (F : Fns α) (r1 r2 d : α) : Except PyErr α :=
@@ -71,11 +77,17 @@ def areaD (F : Fns α) (r1 r2 d : α) : Except PyErr α :=
     let sm := small F r1 r2
     if d ≤ pyAbs (r1 - r2) then .ok sm               -- `if d <= abs(r1 - r2): return small`
     else do
-      let q1 ← quot F r1 r2 d
-      let al ← F.acos (clamp q1)
-      let q2 ← quot F r2 r1 d
-      let be ← F.acos (clamp q2)
-      .ok (pyMin sm (pyMax zero (lensRaw F r1 r2 d al be)))
+      let s := pyMax r1 r2                           -- lengths relative to the larger radius
+      let a ← pyDiv r1 s
+      let b ← pyDiv r2 s
+      let e ← pyDiv d s
+      if isZero (two * a * e) ∨ isZero (two * b * e) then .ok sm   -- `if den1 == 0 or den2 == 0: return small`
+      else do
+        let q1 ← quot F a b e
+        let al ← F.acos (clamp q1)
+        let q2 ← quot F b a e
+        let be ← F.acos (clamp q2)
+        .ok (pyMin sm (pyMax zero (lensRaw F a b e al be * s * s)))
 
 /-- `circle_circle_intersection_area(Point(x1, y1), r1, Point(x2, y2), r2)` -/
 def area (F : Fns α) (x1 y1 r1 x2 y2 r2 : α) : Except PyErr α := do
